@@ -337,14 +337,17 @@ func (c *compiler) compileType(y *Type, parent Leafable, isUnion bool) error {
 	}
 
 	if y.format == val.FmtBits || y.format == val.FmtBitsList {
+		// RFC7950 Sec 9.7.4.2: without a position statement the first bit is 0, any other
+		// one greater than the highest position so far
 		nextPos := 0
-		for _, item := range y.bits {
-			if item.Position > 0 {
-				nextPos = item.Position
-			} else {
+		for i, item := range y.bits {
+			if !item.positionSet {
 				item.Position = nextPos
+				item.positionSet = true
 			}
-			nextPos++
+			if i == 0 || item.Position >= nextPos {
+				nextPos = item.Position + 1
+			}
 		}
 	}
 
